@@ -516,7 +516,7 @@ def numbering(ctx, rep, r3, em=None):
                       "jobs are drawn/listed with stale or missing ids: nodes collide or show as ??")
         lst = p.supplier(r.sched, 'list')
         from .common import topo_loops
-        uses = topo_loops(ctx, lst)
+        uses = topo_loops(ctx, lst, exclude={q.split('.')[-1] for q in numbering})
         rep.check(bool(uses), r3, "%s lists in topological order" % lst.qualname, lst.qualname,
                   "list() does not iterate over self.topological_order()", "jobs are not listed in topological order")
         # nested numbering hook: one id for the cluster, then its members; count hook agrees
